@@ -173,6 +173,19 @@ def make_extra_body(lib):
                 "    def __post_init__(self):", '        __import__("xvlog").log("post", self)']
         if c["kind"] in ("task", "light"):
             out += ["    def execute(self):", '        __import__("xvlog").log("exec", self)']
+        # user-defined special methods the machinery must not depend on (truth value, length, equality, iteration, attribute defaults)
+        d = c.get("dunder", [])
+        if "len" in d:
+            cont = next((a["name"] for a in c["args"] if isinstance(a.get("ty"), dict) and ("list" in a["ty"] or "dict" in a["ty"])), None)
+            out += ["    def __len__(self):", f"        v = vars(self).get({cont!r})", "        return len(v) if isinstance(v, (list, dict)) else 0"]
+        if "bool" in d:
+            out += ["    def __bool__(self):", "        return False"]
+        if "eq" in d:
+            out += ["    def __eq__(self, other):", "        return type(self) is type(other)", "    def __hash__(self):", "        return 7"]
+        if "iter" in d:
+            out += ["    def __iter__(self):", "        return iter(())"]
+        if "getattr" in d:
+            out += ["    def __getattr__(self, name):", "        if name.startswith('_'):", "            raise AttributeError(name)", "        return None"]
         return out
 
     return extra
